@@ -218,3 +218,8 @@ pub(in crate::sql) fn wildcard_cids(ctx: &AnchorContext) -> Vec<usize> {
     ids.sort();
     ids
 }
+
+/// `translate_datetime_literal_with_sqlite_function` for a DATE literal: the statement text, e.g. `DATE('2022-12-31')`.
+pub fn sqlite_date_literal(value: &str) -> String {
+    gen_expr::verif_sqlite_date_literal(value.to_string())
+}
